@@ -222,6 +222,8 @@ MRunRet(s, e) ==
   ELSE IF HasCb(s, "error") /\ e.value # (s.errors > 0) /\ s.R = 0 /\ ~s.ext THEN
        MFail(s, IF e.value THEN "C14.returned_True_without_reported_error" ELSE "C14.returned_False_although_error_reported")
   ELSE IF s.R > 0 /\ ~s.stop /\ ~s.appClose /\ s.lossSeen THEN MFail(s, "C15.gave_up_reconnecting")
+  \* "run_forever returns ... the ping thread is gone": judged at the moment of the return, not only once everything is quiet
+  ELSE IF "live" \in DOMAIN e /\ e.live # <<>> /\ ~s.ext THEN MFail(s, "C14.ping_thread_still_alive")
   ELSE MRes([s EXCEPT !.ret = "returned", !.retVal = e.value, !.active = FALSE], TRUE, "")
 
 MRunRaise(s, e) ==
